@@ -63,6 +63,19 @@ Definition get_dist (u : universe) (repo_allow_pre : bool) (r : req) (budget : o
       else None
   end.
 
+(* MultiRepository.get_dist over a stack of repositories (each with its own allow_prerelease
+   setting): the first one that answers wins, NoCandidate falls through to the next *)
+Definition repo_stack := list (universe * bool).
+Fixpoint get_dist_stack (rs : repo_stack) (r : req) (budget : option nat) : option dist :=
+  match rs with
+  | [] => None
+  | (u, ap) :: rs' =>
+      match get_dist u ap r budget with
+      | Some d => Some d
+      | None => get_dist_stack rs' r budget
+      end
+  end.
+
 (* ---- compile_roots ---- *)
 Inductive sres :=
 | SOk (g : graph)
@@ -76,8 +89,7 @@ Definition liftA {A} (x : res A) (k : A -> sres) : sres :=
 
 Record copts := mkO {
   o_pinned : list (string * req);      (* options.pinned_requirements (empty = falsy) *)
-  o_allow_circular : bool;
-  o_repo_allow_pre : bool
+  o_allow_circular : bool
 }.
 
 Definition GFUEL : nat := 400.
@@ -180,7 +192,7 @@ Definition is_replaced (g : graph) (id : nat) (n : node) : bool :=
   | None => false
   end.
 
-Fixpoint compile_roots (fuel : nat) (e : env) (u : universe) (o : copts) (g : graph) (id : nat)
+Fixpoint compile_roots (fuel : nat) (e : env) (u : repo_stack) (o : copts) (g : graph) (id : nat)
          (source : option nat) (depth : nat) (maxdg : nat) (path : list nat) : sres :=
   match fuel with
   | O => SFatal EFuel
@@ -223,7 +235,7 @@ Fixpoint compile_roots (fuel : nat) (e : env) (u : universe) (o : copts) (g : gr
                                                  | Some p => p | None => spec0 end)))
                  end) (fun spec_req =>
           let g := log_event g ("query " ++ nkey n ++ " clauses=" ++ string_of_nat (List.length (rspec spec_req)) ++ " maxdg=" ++ string_of_nat maxdg)%string in
-          match get_dist u (o_repo_allow_pre o) spec_req (Some maxdg) with
+          match get_dist_stack u spec_req (Some maxdg) with
           | None => SNoCand (log_event g "  -> none") (safe_name (rname spec_req)) (rspec spec_req)
           | Some md =>
               let g := log_event g ("  -> " ++ dname md ++ " " ++ dvtext md)%string in
@@ -320,9 +332,9 @@ Inductive cres :=
 | CNoCand (g : graph) (name : string) (spec : list clause)
 | CFatal (e : err).
 
-Definition perform_compile (fuel : nat) (e : env) (u : universe) (inputs : list dist)
+Definition perform_compile_stack (fuel : nat) (e : env) (u : repo_stack) (inputs : list dist)
            (constraints : option (list dist)) (remove_constraints : bool)
-           (repo_allow_pre : bool) (maxdg : option nat) : cres :=
+           (maxdg : option nat) : cres :=
   let '(all_pinned, pins) :=
     match constraints with Some cs => collect_pins cs true [] | None => (true, []) end in
   match (match constraints with
@@ -335,7 +347,7 @@ Definition perform_compile (fuel : nat) (e : env) (u : universe) (inputs : list 
     | Rok (g1, roots) =>
       let nodes := fold_left (fun a x => nadd x a) roots cnodes in
       let has_cons := match constraints with Some (_ :: _) => true | _ => false end in
-      let o := mkO (if all_pinned && has_cons then pins else []) true repo_allow_pre in
+      let o := mkO (if all_pinned && has_cons then pins else []) true in
       let md := match maxdg with Some m => m | None => max_downgrade end in
       let run :=
         fold_left
@@ -358,3 +370,9 @@ Definition perform_compile (fuel : nat) (e : env) (u : universe) (inputs : list 
       end
     end
   end.
+
+(* one repository *)
+Definition perform_compile (fuel : nat) (e : env) (u : universe) (inputs : list dist)
+           (constraints : option (list dist)) (remove_constraints : bool)
+           (repo_allow_pre : bool) (maxdg : option nat) : cres :=
+  perform_compile_stack fuel e [(u, repo_allow_pre)] inputs constraints remove_constraints maxdg.
